@@ -175,3 +175,30 @@ def number_distribution(rho, dims, modes, nmax):
         if tot <= nmax:
             out[tot] = out[tot] + rho[i, i]
     return out
+
+
+def permute_vec(psi, dims, perm):
+    T = psi.reshape(list(dims))
+    T = T.transpose(list(perm))
+    return T.reshape(-1, 1), [dims[p] for p in perm]
+
+
+def kron_vec(a, b):
+    a = a.reshape(-1)
+    b = b.reshape(-1)
+    out = zeros((len(a) * len(b), 1), a if is_obj(a) else b)
+    for i in range(len(a)):
+        for j in range(len(b)):
+            out[i * len(b) + j, 0] = a[i] * b[j]
+    return out
+
+
+def apply_op_vec(psi, dims, pos, O):
+    """(O on subsystems pos x identity) psi"""
+    k = len(pos)
+    od = [dims[p] for p in pos]
+    Ot = O.reshape(od + od)
+    T = psi.reshape(list(dims))
+    T = np.tensordot(Ot, T, axes=(list(range(k, 2 * k)), list(pos)))
+    T = np.moveaxis(T, list(range(k)), list(pos))
+    return T.reshape(-1, 1)
